@@ -158,8 +158,17 @@ class Runner:
             if p1["e"] == "call" and p2["e"] == "call":
                 self.one(job, "dh", [d1, p2["r"]])
                 self.one(job, "dh", [d2, p1["r"]])
+        elif f == "dhseq":
+            from bumble import crypto
+
+            d, pts = job["a"]
+            key = crypto.EccKey.from_private_key_bytes(bytes.fromhex(d))  # ONE key object for the whole sequence
+            for pt in pts:
+                self.one(job, "dh", [d, pt], thunk=lambda pt=pt: bytes(key.dh(bytes.fromhex(pt[:64]), bytes.fromhex(pt[64:]))).hex())
         elif f == "rpa":
             self.rpa(job)
+        elif f == "rpaseq":
+            self.rpaseq(job)
         elif f == "padd":
             self.padd(job)
         else:
@@ -201,6 +210,41 @@ class Runner:
                 return f"X:{got!s}"
 
             self.one(job, "resolve", [k, ev["r"]], thunk=res)
+
+    # -- one resolver object across several addresses that share their prand
+    def rpaseq(self, job):
+        from unittest import mock
+
+        from bumble import hci, smp
+
+        identity = hci.Address("C4:F0:11:22:33:44", hci.Address.RANDOM_DEVICE_ADDRESS)
+        resolver = smp.AddressResolver([(le(job["irk"]), identity)])  # ONE resolver for the whole sequence
+        made = []
+        for k in [job["irk"]] + list(job["others"]) + [job["irk"]]:
+            box = {}
+
+            def gen(k=k, box=box):
+                with mock.patch("secrets.token_bytes", _Rand(bytes.fromhex(job["rand"]))):
+                    box["a"] = hci.Address.generate_private_address(le(k))
+                return msb(bytes(box["a"]))
+
+            ev = self.one(job, "rpa", [k, "?"], thunk=gen)
+            if ev["e"] != "call":
+                return
+            ab = bytes(box["a"])
+            ev["args"][1] = msb(ab[3:6])
+            ev["wellformed"] = len(ab) == 6 and (ab[5] >> 6) == 1 and bool(box["a"].is_resolvable)
+            made.append((k, box["a"], ev["r"]))
+        for k, address, text in made:
+
+            def res(address=address):
+                got = resolver.resolve(address)
+                if got is None:
+                    return "F"
+                return "T" if bytes(got) == bytes(identity) else f"X:{got!s}"
+
+            # the question put to the resolver is always "is this an address of the peer whose key is job['irk']"
+            self.one(job, "resolve", [job["irk"], text], thunk=res)
 
     # -- diagnostic only (never a verdict): the fallback's private point addition
     def padd(self, job):
